@@ -39,10 +39,99 @@ func mkPool(r *vh.Rand) [][]byte {
 	return pool
 }
 
+// collisionNames are index names that are themselves the encoding of an index key ("a", "abc"):
+// the namespace wrapper then leaves that key's entries outside the index (known finding).
+var collisionNames = []string{"/uYQ", "/uYWJj"}
+
+func genSync(rr *vh.Rand, c *vh.Case) {
+	// SyncIndex needs values that are unique within each index (its doc comment): every value gets one
+	// fixed key per index at first use
+	vals := [][]byte{{1}, {2}, {3}, []byte("v/4"), {0}, rr.Bytes(rr.Range(1, 12))}
+	keys := [][]byte{[]byte("a"), []byte("ab"), []byte("abc"), {0x2f}, rr.Bytes(rr.Range(1, 8))}
+	liveT, liveR := map[int]int{}, map[int]int{} // value index -> key index of the live pair
+	pair := func(live map[int]int, adding bool) string {
+		v := rr.Intn(len(vals))
+		k, ok := live[v]
+		if !ok {
+			k = rr.Intn(len(keys))
+			if ko, ok2 := liveT[v]; ok2 && rr.Chance(2, 3) {
+				k = ko
+			}
+			if ko, ok2 := liveR[v]; ok2 && rr.Chance(2, 3) {
+				k = ko
+			}
+		}
+		if adding {
+			live[v] = k
+		} else {
+			delete(live, v)
+		}
+		return vh.Hex(keys[k]) + " " + vh.Hex(vals[v])
+	}
+	for j, m := 0, rr.Range(2, 20); j < m; j++ {
+		switch k := rr.Intn(100); {
+		case k < 30:
+			c.Ops = append(c.Ops, "add "+pair(liveT, true))
+		case k < 60:
+			c.Ops = append(c.Ops, "radd "+pair(liveR, true))
+		case k < 68:
+			c.Ops = append(c.Ops, "del "+pair(liveT, false))
+		case k < 76:
+			c.Ops = append(c.Ops, "rdel "+pair(liveR, false))
+		case k < 90:
+			c.Ops = append(c.Ops, "sync", "foreach -")
+			if len(liveR) > 0 {
+				liveT = map[int]int{}
+				for v, kk := range liveR {
+					liveT[v] = kk
+				}
+			}
+		case k < 93:
+			c.Ops = append(c.Ops, "delall")
+			liveT = map[int]int{}
+		default:
+			c.Ops = append(c.Ops, "dump", "rdump")
+		}
+	}
+	c.Ops = append(c.Ops, "sync", "foreach -", "sync", "dump", "rdump")
+}
+
 func gen(r *vh.Rand, tier string, n int, emit func(vh.Case)) {
 	for i := 0; i < n; i++ {
 		rr := r.Fork()
 		c := vh.Case{ID: strconv.Itoa(i)}
+		if rr.Chance(1, 6) {
+			c.Ops = append(c.Ops, "ns "+vh.Pick(rr, names))
+			genSync(rr, &c)
+			emit(c)
+			continue
+		}
+		if rr.Chance(1, 30) {
+			// index-name collision stream: only operations whose result does not depend on the
+			// datastore's iteration order once undecodable entries exist
+			c.Ops = append(c.Ops, "ns "+vh.Pick(rr, collisionNames))
+			pool := [][]byte{[]byte("a"), []byte("abc"), []byte("b"), {1}, {2}}
+			pk := func() string { return vh.Hex(vh.Pick(rr, pool)) }
+			for j, m := 0, rr.Range(3, 20); j < m; j++ {
+				switch k := rr.Intn(100); {
+				case k < 40:
+					c.Ops = append(c.Ops, "add "+pk()+" "+pk())
+				case k < 50:
+					c.Ops = append(c.Ops, "del "+pk()+" "+pk())
+				case k < 75:
+					c.Ops = append(c.Ops, "search "+pk())
+				case k < 85:
+					c.Ops = append(c.Ops, "hasv "+pk()+" "+pk())
+				case k < 92:
+					c.Ops = append(c.Ops, "delkey "+pk())
+				default:
+					c.Ops = append(c.Ops, "dump")
+				}
+			}
+			c.Ops = append(c.Ops, "search 61", "search 616263", "dump")
+			emit(c)
+			continue
+		}
 		c.Ops = append(c.Ops, "ns "+vh.Pick(rr, names))
 		pool := mkPool(rr)
 		pick := func() string {
@@ -140,8 +229,21 @@ func errName(err error) string {
 func exec(c vh.Case, o *vh.Out) {
 	ctx := context.Background()
 	var mds *ds.MapDatastore
-	var idx dsindex.Indexer
-	m := mm{}
+	var idx, ridx dsindex.Indexer
+	var rds *ds.MapDatastore
+	m, rm := mm{}, mm{}
+	nsName := ""
+	added := map[string]bool{} // keys ever added in this case
+	// fail reports a multimap violation; when the index is NAMED like the encoding of a key that was
+	// added, the cause is the known namespace collision and gets its own signature
+	fail := func(sig, format string, a ...any) {
+		for k := range added {
+			if nsName == "/u"+b64(k) {
+				sig = "index-name-collision"
+			}
+		}
+		o.Fail(sig, format, a...)
+	}
 	for _, line := range c.Ops {
 		f := strings.Fields(line)
 		arg := func(i int) string { return string(vh.UnHex(f[i])) }
@@ -153,14 +255,89 @@ func exec(c vh.Case, o *vh.Out) {
 				d = dssync.MutexWrap(mds)
 			}
 			idx = dsindex.New(d, ds.NewKey(f[1]))
-			m = mm{}
+			rds = ds.NewMapDatastore()
+			ridx = dsindex.New(rds, ds.NewKey("/ref"))
+			m, rm = mm{}, mm{}
+			nsName = f[1]
 			o.Kind("ns=" + f[1])
 			o.Emit("ok")
+		case "radd", "rdel":
+			k, v := arg(1), arg(2)
+			var err error
+			if f[0] == "radd" {
+				err = ridx.Add(ctx, k, v)
+				if err == nil {
+					if rm[k] == nil {
+						rm[k] = map[string]bool{}
+					}
+					rm[k][v] = true
+				}
+			} else {
+				err = ridx.Delete(ctx, k, v)
+				if err == nil {
+					delete(rm[k], v)
+					if len(rm[k]) == 0 {
+						delete(rm, k)
+					}
+				}
+			}
+			o.Kind(f[0])
+			if err != nil {
+				o.Emit("%s", errName(err))
+			} else {
+				o.Emit("ok")
+			}
+		case "sync":
+			before := strings.Join(m.pairs(""), ",")
+			changed, err := dsindex.SyncIndex(ctx, ridx, idx)
+			o.Kind("sync")
+			// monitor: afterwards the target holds exactly the reference's pairs - unless the reference
+			// is empty, in which case SyncIndex leaves the target alone and reports false
+			want := strings.Join(rm.pairs(""), ",")
+			if len(rm) == 0 {
+				want = before
+			} else {
+				m = mm{}
+				for k, vs := range rm {
+					m[k] = map[string]bool{}
+					for v := range vs {
+						m[k][v] = true
+					}
+				}
+			}
+			var ps []string
+			idx.ForEach(ctx, "", func(kk, vv string) bool {
+				ps = append(ps, vh.Hex([]byte(kk))+":"+vh.Hex([]byte(vv)))
+				return true
+			})
+			sort.Strings(ps)
+			if err != nil || strings.Join(ps, ",") != want || changed != (want != before) {
+				o.Fail("sync-wrong", "SyncIndex = %v,%v; target now %v, reference %v, before %v", changed, err, ps, want, before)
+			}
+			if changed {
+				o.Kind("sync-changed")
+				o.Nontrivial()
+			}
+			if err != nil {
+				o.Emit("error")
+			} else {
+				o.Emit("changed %v", changed)
+			}
+		case "rdump":
+			res, _ := rds.Query(ctx, dsq.Query{KeysOnly: true})
+			es, _ := res.Rest()
+			ks := make([]string, len(es))
+			for i, e := range es {
+				ks[i] = e.Key
+			}
+			sort.Strings(ks)
+			o.Emit("dump %s", strings.Join(ks, ";"))
 		case "add", "del":
 			k, v := arg(1), arg(2)
 			var err error
 			if f[0] == "add" {
 				err = idx.Add(ctx, k, v)
+				added[k] = true
 			} else {
 				err = idx.Delete(ctx, k, v)
 			}
@@ -212,7 +389,7 @@ func exec(c vh.Case, o *vh.Out) {
 				m = mm{}
 			}
 			if errName(err) != wantErr || err == nil && n != want {
-				o.Fail(f[0]+"-count", "%s = %d,%v want %d,%q", line, n, err, want, wantErr)
+				fail(f[0]+"-count", "%s = %d,%v want %d,%q", line, n, err, want, wantErr)
 			}
 			o.Kind(f[0])
 			if err != nil {
@@ -229,7 +406,7 @@ func exec(c vh.Case, o *vh.Out) {
 			o.Kind("search")
 			if err != nil {
 				if k != "" || errName(err) != "empty-key" {
-					o.Fail("search-error", "Search(%q): %v", k, err)
+					fail("search-error", "Search(%q): %v", k, err)
 				}
 				o.Emit("%s", errName(err))
 				continue
@@ -242,7 +419,7 @@ func exec(c vh.Case, o *vh.Out) {
 			if k == "" {
 				o.Fail("search-empty-key-accepted", "Search(\"\") returned %v", hs)
 			} else if strings.Join(hs, ",") != strings.Join(m.values(k), ",") {
-				o.Fail("search-wrong", "Search(%x) = %v want %v", k, hs, m.values(k))
+				fail("search-wrong", "Search(%x) = %v want %v", k, hs, m.values(k))
 			}
 			if len(hs) > 0 {
 				o.Kind("search-hit")
@@ -263,7 +440,7 @@ func exec(c vh.Case, o *vh.Out) {
 				want = "empty-value"
 			}
 			if errName(err) != want || err == nil && h != m[k][v] {
-				o.Fail("hasvalue-wrong", "HasValue(%x,%x) = %v,%v want %v,%q", k, v, h, err, m[k][v], want)
+				fail("hasvalue-wrong", "HasValue(%x,%x) = %v,%v want %v,%q", k, v, h, err, m[k][v], want)
 			}
 			o.Kind("hasv")
 			if err != nil {
@@ -279,7 +456,7 @@ func exec(c vh.Case, o *vh.Out) {
 				want = len(m) > 0
 			}
 			if err != nil || h != want {
-				o.Fail("hasany-wrong", "HasAny(%x) = %v,%v want %v", k, h, err, want)
+				fail("hasany-wrong", "HasAny(%x) = %v,%v want %v", k, h, err, want)
 			}
 			o.Kind("hasany")
 			if err != nil {
@@ -296,7 +473,7 @@ func exec(c vh.Case, o *vh.Out) {
 			})
 			sort.Strings(ps)
 			if err != nil || strings.Join(ps, ",") != strings.Join(m.pairs(k), ",") {
-				o.Fail("foreach-wrong", "ForEach(%x) = %v,%v want %v", k, ps, err, m.pairs(k))
+				fail("foreach-wrong", "ForEach(%x) = %v,%v want %v", k, ps, err, m.pairs(k))
 			}
 			o.Kind("foreach")
 			if len(ps) > 0 && k != "" && m.related(k) {
